@@ -80,6 +80,8 @@ def configs(tier):
         else:
             out.append(mkcfg(f"km-t14-{tag}", "KM", "none", N, F(1), t=q, g=F(1, 8)))
             out.append(mkcfg(f"kw-t14-{tag}", "KW", "none", N, F(1), t=q, g=F(1, 8)))
+    # a very small null mean, no padding: one zero ruins Kaplan-Markov for good however many large draws follow
+    out.append(mkcfg("km-t1024-inf-g0", "KM", "none", 0, F(1), t=F(1, 1024), g=F(0)))
     # a bet of exactly zero, and a population bound and null mean well above 1
     for N in ([0, 4] if tier == "quick" else [0, 4, 6]):
         tag = "inf" if N == 0 else f"N{N}"
@@ -392,6 +394,20 @@ def conv_records(rng, n):
                              "lam": rs(lam), "eta": rs(eta), "eta_of_lam": rs(e_of_l), "lam_of_eta": rs(l_of_e),
                              "lam_back": rs(tst.eta_to_lam(e_of_l, float(m))),
                              "eta_back": rs(tst.lam_to_eta(l_of_e, float(m)))})
+                k += 1
+            # the same conversions on whole arrays (what the estimators return), every value read back from the
+            # caller's own arrays after all the calls: a conversion must not write into its argument
+            import numpy as np
+            lam_arr = np.array([float(v) for v in lams])
+            eta_arr = np.array([float(v) for v in etas])
+            e_of_l = tst.lam_to_eta(lam_arr, float(m))
+            l_of_e = tst.eta_to_lam(eta_arr, float(m))
+            lam_back = tst.eta_to_lam(e_of_l, float(m))
+            eta_back = tst.lam_to_eta(l_of_e, float(m))
+            for i2 in range(len(lams)):
+                recs.append({"kind": "conv", "tid": f"conv:{k}", "cfgname": "conversions", "u": rs(u), "m": rs(m),
+                             "lam": rs(lam_arr[i2]), "eta": rs(eta_arr[i2]), "eta_of_lam": rs(e_of_l[i2]),
+                             "lam_of_eta": rs(l_of_e[i2]), "lam_back": rs(lam_back[i2]), "eta_back": rs(eta_back[i2])})
                 k += 1
     return recs
 
